@@ -6,3 +6,5 @@ import RB.Model.DB
 import RB.Proofs.C17
 import RB.Model.Report
 import RB.Proofs.C18
+import RB.Model.Kill
+import RB.Proofs.C16
